@@ -1,10 +1,103 @@
-(* Props/C11.v — placeholder while the proofs are being built *)
-From Coq Require Import List Arith ZArith.
-From QV Require Import Tensor.Sums Tensor.Net Tensor.Contract.
+(* Props/C11.v — 2-D network contraction is exact without truncation and sweep-independent.
+   All theorems are generic in the commutative ring K of tensor entries (Z, Qc, R, ...).
+   Model: Tensor/Contract.v (qecsim.tensortools.mps / mps2d / tsr); specification: Tensor/Net.v
+   ([value] = sum over all internal bond assignments of the product of entries). *)
+From Coq Require Import List Arith Lia Bool ZArith QArith.
+From QV Require Import Tensor.Sums Tensor.Net Tensor.StartStop Tensor.Contract Tensor.ContractZ
+  Tensor.Sweep Tensor.Ladder Tensor.Exact Tensor.Noop Tensor.Split Tensor.WfCheck Tensor.Examples.
+Import ListNotations.
+Local Open Scope nat_scope.
+
+(* pairwise contraction = composition of the two column operators; merged indices (nN) = n*dN+N,
+   (sS) = s*dS+S; any number of rows, any bond dimensions, empty sites copied [P-forall] *)
 Theorem c11_pairwise_sem : forall (K : cring) (A B : list (option (tensor K))) v V ws Es,
   hmatch K A B -> vchain K A -> vchain K B -> vok K A v -> Vok K B V ->
   inr ws (map (dwo K) A) -> inr Es (map (deo K) B) ->
   opc (pairwise A B) (v * hd_dn K B + V) ws Es
   = sumt (map (deo K) A) (fun mid => rmul K (opc A v ws mid) (opc B V mid Es)).
 Proof. exact pairwise_sem. Qed.
-Print Assumptions c11_pairwise_sem.
+
+(* contract_ladder then as_scalar = the column operator at the dummy indices [P-forall] *)
+Theorem c11_ladder_scalar : forall (K : cring) r (A : list (option (tensor K))) a b,
+  length A = r -> vchain K A -> hd_dn K A = 1 -> dso K (last A None) = 1 ->
+  map (deo K) A = repeat 1 r -> map (dwo K) A = repeat 1 r ->
+  a < b <= r -> (forall i, i < r -> (is_some (nth i A None) = true <-> a <= i < b)) ->
+  bind (contract_ladder K A) (as_scalar K) = Ok (opc A 0 (repeat 0 r) (repeat 0 r)).
+Proof. exact ladder_scalar_sem. Qed.
+
+(* the column sweep is exact, left-to-right (step None / 1) and right-to-left (step -1), for every
+   well-shaped network of any size, any bond dimensions, with None padding [P-forall] *)
+Theorem c11_sweep_exact : forall (K : cring) r (tn : list (list (option (tensor K)))), netwf K r tn ->
+  contract K tn None None None None None None = Ok (Scalar (value r tn))
+  /\ contract K tn None None None None (Some 1%Z) None = Ok (Scalar (value r tn))
+  /\ contract K tn None None None None (Some (-1)%Z) None = Ok (Scalar (value r tn)).
+Proof. exact sweep_exact. Qed.
+
+(* every split column: inner_product(contract(stop=c), contract(start=-1, stop=c-1, step=-1)) * mults [P-forall] *)
+Theorem c11_split : forall (K : cring) r (left right : list (list (option (tensor K)))),
+  left <> [] -> right <> [] -> netwf K r (left ++ right) ->
+  split_contract K (left ++ right) None None None (Z.of_nat (length left)) = Ok (value r (left ++ right)).
+Proof. exact split_exact. Qed.
+
+(* the truncation guard [P-forall] *)
+Theorem c11_truncate_noop : forall (K : cring) chi tol mask (m : list (option (tensor K))),
+  would_truncate K chi tol mask m = false -> truncate K chi tol mask m = Ok (m, r1 K).
+Proof. exact truncate_noop. Qed.
+Theorem c11_guard_cases : forall (K : cring) (m : list (option (tensor K))) chi tol mask,
+  (truthyQ tol = false -> truthyZ chi = false -> would_truncate K chi tol mask m = false)
+  /\ (forall mk, existsb (fun b : bool => b) mk = false -> would_truncate K chi tol (Some mk) m = false)
+  /\ (forall c, truthyQ tol = false -> (Z.of_nat (bond_dimension K m) <= c)%Z -> would_truncate K (Some c) tol mask m = false).
+Proof. intros K m chi tol mask. repeat split; intros; [apply guard_unset|apply guard_mask|apply guard_chi]; assumption. Qed.
+(* no-op settings leave contract's result literally unchanged, for every start/stop/step [P-forall] *)
+Theorem c11_contract_noop_unset : forall (K : cring) (tn : list (list (option (tensor K)))) chi tol a b s mask,
+  truthyQ tol = false -> truthyZ chi = false ->
+  contract K tn chi tol a b s mask = contract K tn None None a b s None.
+Proof. exact contract_noop_unset. Qed.
+Theorem c11_contract_noop_mask : forall (K : cring) (tn : list (list (option (tensor K)))) chi tol a b s mk,
+  Forall (fun colmask => existsb (fun b : bool => b) colmask = false) mk ->
+  contract K tn chi tol a b s (Some mk) = contract K tn None None a b s None.
+Proof. exact contract_noop_mask. Qed.
+Theorem c11_contract_noop_chi : forall (K : cring) (tn : list (list (option (tensor K)))) c tol a b s mask,
+  truthyQ tol = false ->
+  Forall (fun bd => (Z.of_nat bd <= c)%Z) (contract_bonds K tn a b s) ->
+  contract K tn (Some c) tol a b s mask = contract K tn None None a b s None.
+Proof. exact contract_noop_chi. Qed.
+
+(* the contiguous-run finder used by contract_ladder [P-forall] *)
+Theorem c11_start_stop_sound : forall (X : Type) (l : list (option X)) a b, start_stop l = Some (a, b) -> run_spec l a b.
+Proof. intros X. exact start_stop_sound. Qed.
+Theorem c11_start_stop_error : forall (X : Type) (l : list (option X)), start_stop l = None <->
+  exists j k m, j < k < m /\ m < length l /\ is_some (nth j l None) = true
+                /\ is_some (nth k l None) = false /\ is_some (nth m l None) = true.
+Proof. intros X. exact start_stop_error. Qed.
+
+(* the engine's boolean test of the theorems' hypothesis is sound (run on every generated network) [VC] *)
+Theorem c11_netwfb_sound : forall (K : cring) r (tn : list (list (option (tensor K)))), netwfb K r tn = true -> netwf K r tn.
+Proof. exact netwfb_sound. Qed.
+
+(* transposition: the full statement is NOT proved (it needs the row/column Fubini exchange over
+   the whole grid); it stays visible here and is checked by the harness on every generated network *)
+Definition c11_transpose_statement : Prop :=
+  forall (K : cring) r c (tn : list (list (option (tensor K)))), netwf K r tn -> length tn = c ->
+    value c (transpose_net K r tn) = value r tn.
+(* proved part: the tensor transpose is an involution (numpy.transpose reverses the four axes) *)
+Theorem c11_transpose_partial : forall (K : cring) (t : tensor K),
+  transpose_tensor K (transpose_tensor K t) = t.
+Proof. intros K [a b c d v]. reflexivity. Qed.
+
+(* non-vacuity: a concrete padded 2 x 3 network is well-shaped; sweeps, splits and spec agree *)
+Theorem c11_example_wf : netwf Zring 2 ex_net.
+Proof. exact ex_netwf. Qed.
+Theorem c11_example_values :
+  contractZ ex_net None None None None None None = Ok (@Scalar Zring (valueZ 2 ex_net))
+  /\ contractZ ex_net None None None None (Some (-1)%Z) None = Ok (@Scalar Zring (valueZ 2 ex_net))
+  /\ split_contractZ ex_net None None None 1%Z = Ok (valueZ 2 ex_net)
+  /\ split_contractZ ex_net None None None 2%Z = Ok (valueZ 2 ex_net)
+  /\ valueZ 2 ex_net = 731%Z.
+Proof. exact ex_values. Qed.
+
+Print Assumptions c11_pairwise_sem. Print Assumptions c11_ladder_scalar. Print Assumptions c11_sweep_exact.
+Print Assumptions c11_split. Print Assumptions c11_truncate_noop. Print Assumptions c11_guard_cases.
+Print Assumptions c11_contract_noop_unset. Print Assumptions c11_contract_noop_mask. Print Assumptions c11_contract_noop_chi.
+Print Assumptions c11_start_stop_sound. Print Assumptions c11_start_stop_error. Print Assumptions c11_transpose_partial.
+Print Assumptions c11_netwfb_sound. Print Assumptions c11_example_wf. Print Assumptions c11_example_values.
